@@ -1,4 +1,5 @@
 import CollectionsC.Proofs.TreeTableHeight
+import CollectionsC.Proofs.TreeTableWalk
 /-! Operation level: every function of `cc_treetable` on a state satisfying the invariant returns the
 status and out-value of the ideal ordered map, keeps the invariant, commutes with the abstraction,
 does not fault, keeps the ledger balanced, leaves the state untouched when it rejects the call, and
@@ -61,6 +62,23 @@ theorem lookup_eq {t : TreeTable} (h : t.Inv cmp) (k : Nat) : t.lookup cmp k = T
 theorem lookup_refines (ho : TotalOrder cmp) {t : TreeTable} (h : t.Inv cmp) (k : Nat) :
     (t.lookup cmp k).1 = OrdMap.lookup t.abs k := by
   rw [lookup_eq h, find_refines ho k t.root h.1]; rfl
+
+/-- a successful lookup found a node -/
+theorem findPath_of_lookup {t : TreeTable} (h : t.Inv cmp) (k : Nat) {v n : Nat}
+    (hl : t.lookup cmp k = (some v, n)) : (Tree.findPath cmp k t.root).isSome := by
+  have := Tree.find_eq_findPath (cmp := cmp) k t.root
+  rw [← lookup_eq h, hl] at this
+  cases hf : Tree.findPath cmp k t.root with
+  | none => rw [hf] at this; simp at this
+  | some p => rfl
+
+/-- the enumeration loops of `foreach_*` and `contains_value` walk the in-order list -/
+theorem foreachKey_spec (t : TreeTable) : t.foreachKey = keys t.abs := by
+  unfold foreachKey keys abs; rw [Tree.walk_eq_toList]
+theorem foreachValue_spec (t : TreeTable) : t.foreachValue = values t.abs := by
+  unfold foreachValue values abs; rw [Tree.walk_eq_toList]
+theorem containsValue_spec (t : TreeTable) (v : Nat) : t.containsValue v = countValue t.abs v := by
+  unfold containsValue countValue abs; rw [Tree.walk_eq_toList]
 
 /-- **C17, comparisons of a lookup** -/
 theorem lookup_cmps {t : TreeTable} (h : t.Inv cmp) (k : Nat) :
@@ -207,7 +225,7 @@ theorem greaterThan_spec (ho : TotalOrder cmp) {t : TreeTable} (h : t.Inv cmp) (
   split <;> rename_i heq <;> rw [heq] at hl hc <;> simp only at hl hc <;> rw [← hl] at hci
   · simp only [hci, Option.isSome_none, Bool.false_eq_true, if_false]; exact ⟨trivial, trivial, hc⟩
   · simp only [Option.isSome_some] at hci
-    rw [nextAfter_eq_succ ho h.1 hci]
+    rw [(Tree.succOfKey_eq ho h.1 k (findPath_of_lookup h k heq)).1, nextAfter_eq_succ ho h.1 hci]
     simp only [hci, if_true]
     unfold abs
     cases succ cmp t.root.toList k <;> exact ⟨rfl, rfl, hc⟩
@@ -223,7 +241,7 @@ theorem lesserThan_spec (ho : TotalOrder cmp) {t : TreeTable} (h : t.Inv cmp) (k
   split <;> rename_i heq <;> rw [heq] at hl hc <;> simp only at hl hc <;> rw [← hl] at hci
   · simp only [hci, Option.isSome_none, Bool.false_eq_true, if_false]; exact ⟨trivial, trivial, hc⟩
   · simp only [Option.isSome_some] at hci
-    rw [prevBefore_eq_pred ho h.1 hci]
+    rw [(Tree.succOfKey_eq ho h.1 k (findPath_of_lookup h k heq)).2, prevBefore_eq_pred ho h.1 hci]
     simp only [hci, if_true]
     unfold abs
     cases pred cmp t.root.toList k <;> exact ⟨rfl, rfl, hc⟩
@@ -376,7 +394,7 @@ theorem step_ok (ho : TotalOrder cmp) {t : TreeTable} (h : t.Inv cmp) (op : Op) 
   | containsKey k =>
     obtain ⟨a, c⟩ := containsKey_spec ho h k
     exact ⟨(by simp only [step, OrdMap.step, a]), rfl, h, rfl, fun _ _ _ => ⟨rfl, fun _ => rfl⟩, rfl, rfl, (by simp only [step]; omega)⟩
-  | containsValue v => exact ⟨rfl, rfl, h, rfl, fun _ _ _ => ⟨rfl, fun _ => rfl⟩, rfl, rfl, (by simp only [step]; omega)⟩
+  | containsValue v => exact ⟨by simp only [step, OrdMap.step, containsValue_spec], rfl, h, rfl, fun _ _ _ => ⟨rfl, fun _ => rfl⟩, rfl, rfl, (by simp only [step]; omega)⟩
   | remove k =>
     obtain ⟨a, b, c, d, e, f, g, i, j⟩ := remove_spec ho h k m (by omega)
     refine ⟨?_, c, d, j, ?_, f, g, by simp only [step]; omega⟩
@@ -414,7 +432,7 @@ theorem step_ok (ho : TotalOrder cmp) {t : TreeTable} (h : t.Inv cmp) (op : Op) 
   | lesserThan k =>
     obtain ⟨a, b, c⟩ := lesserThan_spec ho h k
     exact ⟨(by simp only [step, OrdMap.step, a, b]), rfl, h, rfl, fun _ _ _ => ⟨rfl, fun _ => rfl⟩, rfl, rfl, (by simp only [step]; omega)⟩
-  | foreachKey => exact ⟨rfl, rfl, h, rfl, fun _ _ _ => ⟨rfl, fun _ => rfl⟩, rfl, rfl, (by simp only [step]; omega)⟩
-  | foreachValue => exact ⟨rfl, rfl, h, rfl, fun _ _ _ => ⟨rfl, fun _ => rfl⟩, rfl, rfl, (by simp only [step]; omega)⟩
+  | foreachKey => exact ⟨by simp only [step, OrdMap.step, foreachKey_spec], rfl, h, rfl, fun _ _ _ => ⟨rfl, fun _ => rfl⟩, rfl, rfl, (by simp only [step]; omega)⟩
+  | foreachValue => exact ⟨by simp only [step, OrdMap.step, foreachValue_spec], rfl, h, rfl, fun _ _ _ => ⟨rfl, fun _ => rfl⟩, rfl, rfl, (by simp only [step]; omega)⟩
   | size => exact ⟨(by simp only [step, OrdMap.step, h.size_eq]), rfl, h, rfl, fun _ _ _ => ⟨rfl, fun _ => rfl⟩, rfl, rfl, (by simp only [step]; omega)⟩
 end CC.TreeTable
